@@ -335,6 +335,9 @@ impl World for C20 {
 
     fn init_process(&self) {
         verif_hooks::set_poison(true);
+        if std::env::var_os("VERIF_NO_WARMUP").is_some() {
+            return;
+        }
         // Warm up process-wide lazies so that ordinary runs are history-independent.
         kit::ctx_reset();
         let loader = kit::MapLoader { modules: BTreeMap::new() };
@@ -414,15 +417,74 @@ impl World for C20 {
                 }
             })
             .collect();
-        json!({"shared": shared, "threads": threads, "schedules": schedules, "quarantine": env.chance(1, 2), "max_steps": 20000})
+        json!({"shared": shared, "threads": threads, "schedules": schedules, "quarantine": env.chance(1, 2), "max_steps": 20000, "cold": env.chance(1, 8)})
     }
 
     fn execute(&self, case: &Json) -> Outcome {
         let mut o = Outcome::default();
         o.digest = fnv(case.to_string().as_bytes());
+        let cold = case["cold"].as_bool().unwrap_or(false);
+        if cold && std::env::var_os("VERIF_NO_WARMUP").is_none() {
+            // Cold start: the whole case runs in a fresh process whose process-wide lazies (globals,
+            // method tables, constants, static heaps) are touched for the first time concurrently.
+            let dir = std::path::PathBuf::from(format!("{}/target/scratch", out_root()));
+            let _ = std::fs::create_dir_all(&dir);
+            let path = dir.join(format!("c20-cold-{}-{:x}.json", std::process::id(), o.digest));
+            let _ = std::fs::write(&path, serde_json::to_vec(&json!({"property": "C20", "case": case})).unwrap());
+            let out = std::process::Command::new(std::env::current_exe().expect("exe"))
+                .arg("exec")
+                .arg(&path)
+                .env("VERIF_NO_WARMUP", "1")
+                .stdin(std::process::Stdio::null())
+                .stderr(std::process::Stdio::null())
+                .output();
+            let _ = std::fs::remove_file(&path);
+            match out {
+                Ok(out) => {
+                    let text = String::from_utf8_lossy(&out.stdout);
+                    if let Some(l) = text.lines().find_map(|l| l.strip_prefix("OUTCOME ")) {
+                        if let Ok(j) = serde_json::from_str::<Json>(l) {
+                            let mut r = Outcome::from_json(&j);
+                            r.bump("probe.cold_start_cases", 1);
+                            return r;
+                        }
+                    }
+                    o.violate("crash", "crash", format!("cold-start child died: {:?}", out.status));
+                }
+                Err(e) => o.violate("harness", "harness", format!("cannot spawn cold child: {e}")),
+            }
+            return o;
+        }
         verif_hooks::set_poison(true);
         verif_hooks::set_quarantine(case["quarantine"].as_bool().unwrap_or(false));
+        // In a cold process the first concurrent schedule runs BEFORE the sequential reference.
+        let cold_first = if cold {
+            case["schedules"].as_array().and_then(|a| a.first()).map(|p| (p.clone(), run_scenario(case, p["seed"].as_u64().unwrap_or(1), policy_from_json(p))))
+        } else {
+            None
+        };
         let reference = run_scenario(case, 1, Policy::Sequential);
+        if let Some((p, r)) = &cold_first {
+            o.bump("fault.context_switches", r.switches);
+            o.sim_time += r.steps;
+            if let Some(h) = &r.hung {
+                o.violate("hang", "hang", format!("cold-start schedule {p}: {h}"));
+            } else if r.deadlock {
+                o.violate("deadlock", "deadlock", format!("cold-start schedule {p}"));
+            } else if let Some(pn) = r.panics.first() {
+                o.violate("panic", "panic", format!("cold-start schedule {p}: {pn}"));
+            } else {
+                for (t, (a, b)) in reference.transcripts.iter().zip(r.transcripts.iter()).enumerate() {
+                    if let Some(d) = kit::diff_transcripts(a, b) {
+                        o.violate("concurrent-differs-from-sequential", "transcript-cold", format!("cold-start schedule {p}: thread {t}: {d}"));
+                        break;
+                    }
+                }
+            }
+            if r.site_switches.iter().enumerate().any(|(i, n)| i != 14 && *n > 0) {
+                o.nontrivial = true;
+            }
+        }
         let mut log: Vec<String> = Vec::new();
         for t in &reference.transcripts {
             log.extend(t.iter().cloned());
